@@ -63,5 +63,191 @@ def replay_kernel(ctx, c, h):
     return hit, what
 
 def replay_hdr(ctx, c, h): return False, 'not implemented'
-def replay_msg(ctx, c, h): return False, 'not implemented'
+
+# ---- reference acceptor (Python twin of the harness oracle) used to judge native replays of whole messages
+import re as _re
+def tables():
+    t = open(os.path.join(VERIF, 'shims', 'codec_tables.h')).read(); out = {}
+    for k in ('hdr', 'body', 'grp', 'trl'):
+        m = _re.search(r'vf_%s_traits\[\] = \{(.*?)\};' % k, t, _re.S)
+        out[k] = [tuple(int(x, 0) for x in r) for r in _re.findall(r'\{(\d+),(\d+),(\d+),(\d+),(0x[0-9a-f]+)\}', m.group(1))]
+    return out
+STRING_TYPES = set(range(15, 41))     # FieldTrait::ft_string .. ft_Language (value kept as text by the field object)
+
+def tokenize(msg):
+    toks = []; i = 0
+    while i < len(msg):
+        j = msg.find(b'\x01', i)
+        if j < 0: return None
+        tv = msg[i:j]; k = tv.find(b'=')
+        if k <= 0 or not tv[:k].isdigit(): return None
+        toks.append((int(tv[:k]), tv[k + 1:])); i = j + 1
+    return toks
+
+def reference(msg, nochk):
+    """(conforming?, expected [(component, tag, value)]) for a message 8=..|9=..|35=A|...|10=ddd| over header/Logon/NoMsgTypes/trailer"""
+    T = tables(); toks = tokenize(msg)
+    if not toks or len(toks) < 4 or [t for t, _ in toks[:3]] != [8, 9, 35] or toks[2][1] != b'A' or toks[-1][0] != 10: return None, None
+    H = {r[0]: r for r in T['hdr']}; B = {r[0]: r for r in T['body']}; G = {r[0]: r for r in T['grp']}; TR = {r[0]: r for r in T['trl']}
+    ok = True; region = 0; seen = {0: {8, 9, 35}, 1: set(), 2: set()}; exp = []; ing = False; nel = 0; has2 = False; want = 0
+    for tag, val in toks[3:-1]:
+        if ing and tag in G:
+            if tag == 372: nel += 1; has2 = False
+            else:
+                if nel == 0 or has2: ok = False
+                has2 = True
+            exp.append(('b/g384.%d' % (nel - 1), tag, val)); continue
+        if ing:
+            ing = False
+            if nel != want: ok = False
+        r = 0 if tag in H else 1 if tag in B else 2 if (tag in TR and tag != 10) else -1
+        if r < 0 or r < region: ok = False
+        else: region = r
+        if r >= 0:
+            if tag in seen[r]: ok = False
+            seen[r].add(tag)
+        exp.append(('hbt'[r] if r >= 0 else '?', tag, val))
+        if tag == 384 and r == 1:
+            try: want = int(val)
+            except ValueError: want = -1
+            if want > 0: ing = True; nel = 0
+    if ing and nel != want: ok = False
+    for tab, r in ((T['hdr'], 0), (T['body'], 1)):
+        for row in tab:
+            if row[4] & 1 and row[0] not in seen[r]: ok = False
+    if not nochk:
+        cs = toks[-1][1]
+        if len(cs) != 3 or not cs.isdigit() or int(cs) != sum(msg[:len(msg) - 7]) & 255: ok = False
+    return ok, exp
+
+def parse_dump(out):
+    res = None; fields = []; unk = {}; enc = None
+    for l in out.splitlines():
+        if l.startswith('RESULT'): res = l
+        elif l.startswith('F '): _, comp, tag, hx = (l.split(' ') + [''])[:4]; fields.append((comp, int(tag), bytes.fromhex(hx)))
+        elif l.startswith('U '): _, comp, hx = l.split(' '); unk[comp] = bytes.fromhex(hx)
+        elif l.startswith('E '): enc = bytes.fromhex(l[2:].strip())
+    return res, fields, unk, enc
+
+def cx_message(c):
+    n = int(c.get('cx_len', 0)); msg = bytes(int(v) & 255 for v in (c.get('cx_msg') or [])[:n])
+    return msg
+
+def replay_msg(ctx, c, h):
+    """whole-message counterexample of the decoder harnesses: run the real Message::factory (FIX42UTEST classes, ASan/UBSan) on the
+    message bytes; the checksum digits are set right or wrong as in the counterexample; judged by the Python reference acceptor"""
+    msg = cx_message(c)
+    if len(msg) < 27: return False, 'no message in counterexample'
+    nochk = int(c.get('cx_nochk', 0)); perm = int(c.get('cx_perm', 0))
+    real = sum(msg[:-7]) & 255
+    want_ok = int(bytes(int(x) & 255 for x in c.get('cx_cs', [48, 48, 48])).decode('latin1')) == int(c.get('cx_sum', -1)) if 'cx_cs' in c else True
+    digits = real if want_ok else (real + 1) & 255
+    msg = msg[:-4] + (b'%03d' % digits) + msg[-1:]
+    rc, out = run_replay(ctx, 'factory', msg.hex(), nochk, perm, 0)
+    res, fields, unk, enc = parse_dump(out)
+    shown = msg.replace(b'\x01', b'|').decode('latin1')
+    if sanitizer_hit(rc, out): return True, 'sanitizer report on %r: %s' % (shown, _short(out))
+    conform, exp = reference(msg, nochk)
+    if conform is None: return False, 'message outside the reference acceptor: %r' % shown
+    accepted = res is not None and res.startswith('RESULT accepted')
+    if perm: return replay_perm(ctx, c, msg, shown, accepted, fields, unk, enc, res)
+    if accepted and not conform: return True, 'accepted although not schema-conforming: %r -> %s' % (shown, res)
+    if not accepted and conform: return True, 'conforming message rejected: %r -> %s' % (shown, res)
+    if accepted:
+        T = tables(); ft = {r[0]: r[1] for k in T for r in T[k]}
+        got = [(cmp_, t) for cmp_, t, v in fields if t not in (8, 9, 35, 10)]
+        want = [(cmp_, t) for cmp_, t, v in exp]
+        if sorted(got) != sorted(want): return True, 'accepted but fields differ from tokens: %r -> decoded %s' % (shown, got)
+        gv = sorted((cmp_, t, v) for cmp_, t, v in fields if ft.get(t) in STRING_TYPES and t not in (8, 9, 35, 10)); wv = sorted((cmp_, t, v) for cmp_, t, v in exp if ft.get(t) in STRING_TYPES)
+        if gv != wv: return True, 'accepted but string values differ from their text: %r -> %s' % (shown, gv)
+    return False, 'native run agrees with the reference acceptor (%s): %r' % (res, shown)
+
+def replay_perm(ctx, c, msg, shown, accepted, fields, unk, enc, res): return False, 'not implemented'
 def add_c03_objects(ctx, defs): pass
+
+# ------------------------------------------------------------------ the token-level decoder world
+WORLD_ROOTS = ['vf_ctx_setup', 'vf_ctx_mk_hdr', 'vf_ctx_mk_trl', 'vf_tab_hdr', 'vf_tab_body', 'vf_tab_grp', 'vf_tab_trl', 'vf_mk_header', 'vf_mk_trailer',
+               'vf_mk_body', 'vf_mk_element', 'vf_mk_group', 'vf_factory', 'vf_extract_header', 'vf_extract_trailer', 'vf_extract_element_s', 'vf_mb_decode',
+               'vf_unknown_data', 'vf_unknown_size', 'vf_field_int', 'vf_body_length', 'vf_msg_type', 'vf_check_sum', 'vf_ti']
+FLD = 12          # scaled FIX8_MAX_FLD_LENGTH of the decoder world (tags <= 5 digits, values <= 7 bytes)
+M_DECODE = '_ZN4FIX811MessageBase6decodeERKNSt7__cxx1112basic_stringIcSt11char_traitsIcESaIcEEEjjb'
+M_DGROUP = '_ZN4FIX811MessageBase12decode_groupEPNS_9GroupBaseEtRKNSt7__cxx1112basic_stringIcSt11char_traitsIcESaIcEEEjj'
+M_FILL = '_ZL4fillPN4FIX810FieldTraitEPtjPNS_21FieldTrait_Hash_ArrayEPK2FTj'
+FUN_DECODE = ['FIX8::Message::factory', 'FIX8::MessageBase::extract_header', 'FIX8::Message::decode', 'FIX8::MessageBase::decode', 'FIX8::MessageBase::decode_group',
+              'FIX8::fast_atoi<unsigned short|unsigned|int>', 'FIX8::presorted_set<unsigned short, FieldTrait>::find (hash-array path)', 'FIX8::FieldTraits::get/has/set/getPos/find_missing',
+              'FIX8::F8MetaCntx::find_be', 'FIX8::GeneratedTable<const char*, BaseMsgEntry>::find_ptr', 'FIX8::MessageBase::has_group_count', 'FIX8::Field<int,0>(const char*) (field object handed back by the creator)']
+STUBS_DECODE = [
+    'BaseEntry::_create._do (field instantiator reached through the field table) := shim function that reports the text it is given to the harness log and returns a real Field<int,0> built from it',
+    'MessageBase::add_field_decoder / MessageBase::add_field(fnum, itr, pos, field, false) := append (component, tag, position, text) to the harness log (no std::map insertion)',
+    'MessageBase::find_add_group := the one group object of the world for (Logon, 384), null otherwise; GroupBase::create_group := next of a pool of 3 real MessageBase elements; GroupBase::operator<< := count; unique_ptr<MessageBase>::~unique_ptr := nothing',
+    'std::function<Message*(bool)>::operator() (Minst::_do, _mk_hdr, _mk_trl) := the pre-built body / header / trailer object',
+    'Message::calc_chksum(const char*, ...) := a byte sum chosen by the harness (kernel == byte sum is C07)',
+    'constructors of the f8Exception family and f8Exception::format<> := no text formatting; the thrown typeinfo is observed',
+    'basic_ostringstream / operator<< (reason text of MissingMandatoryField) := empty shell (models/codec.c); std::string, operator new: models/cxx.c',
+    'SingleLogger::is_loggable := false (logging off)']
+STUB_TOK = 'MessageBase::extract_element(const char*, unsigned, char*, char*) := token oracle over the harness token table: returns the token that starts at the given position (tag text, value text, width); this is the functional contract the C03_ext_* kernel harnesses prove for the real tokenizer on every byte string'
+STUB_NOGRP = 'MessageBase::decode_group := assert(false) (harnesses without a group-count token: reaching it fails the check)'
+
+def world(ctx):
+    """build the four translations of the decoder world (tokenizer real/cut x decode_group real/cut) once per run"""
+    if getattr(ctx, '_codec_world', None): return ctx._codec_world
+    ext = ['-DFIX8_MAX_FLD_LENGTH=%d' % FLD]
+    shim = ctx.build_ir('codec_world.cpp', 'cut', extra=ext); msg = ctx.build_ir(REPO + '/runtime/message.cpp', 'cut', extra=ext)
+    ll = ctx.link_ir([shim, msg], 'codecworld')
+    common = dict(stubfiles=['codec_world.stubs', 'common.stubs'], models=['cxx.c', 'stubs.c', 'codec.c'], provided=['vf_rec_create', 'vf_next_element'])
+    info = {}
+    info['world.c'] = ctx.translate(ll, WORLD_ROOTS, 'world.c', **common)
+    info['world_ng.c'] = ctx.translate(ll, WORLD_ROOTS, 'world_ng.c', stubs={M_DGROUP: 'st_no_group'}, **common)
+    tk = dict(common, stubfiles=['codec_world.stubs', 'codec_tok.stubs', 'common.stubs'])
+    info['world_tk.c'] = ctx.translate(ll, WORLD_ROOTS, 'world_tk.c', **tk)
+    info['world_tkng.c'] = ctx.translate(ll, WORLD_ROOTS, 'world_tkng.c', stubs={M_DGROUP: 'st_no_group'}, **tk)
+    tabcheck(ctx)
+    ctx._codec_world = info
+    return info
+
+def tabcheck(ctx):
+    """the hand-copied trait tables (shims/codec_tables.h) equal the f8c-generated ones in libutest.so"""
+    exe = ctx.native('codectab', ['replay/codec_tabcheck.cpp'], flags=('-O1', '-fno-access-control', '-I' + REPO + '/utests'),
+                     libs=['-L' + REPO + '/utests/.libs', '-lutest', '-L' + REPO + '/runtime/.libs', '-lfix8', '-Wl,-rpath,' + REPO + '/utests/.libs', '-Wl,-rpath,' + REPO + '/runtime/.libs'])
+    r = sh([exe])
+    if r.returncode != 0: raise Broken('codec_tables.h differs from the generated FIX42UTEST tables: ' + r.stdout[-400:])
+    ctx.validation.append(dict(kernels=['codec_tables.h vs FIX42UTEST (header, Logon, Logon::NoMsgTypes, trailer, field table size)'], result=r.stdout.strip()))
+
+def us_decode(ntok, harness_loops=('main', 'run'), extra=()):
+    """per-loop unwinding bounds of the decoder world (names from cbmc --show-loops); global --unwind covers the small harness loops"""
+    us = ['%s.%d:%d' % (f, i, 170) for f in harness_loops for i in range(0, 14)]
+    us += ['_ZNK4FIX811FieldTraits12find_missingENS_10FieldTrait10TraitTypesE.0:29', 'in_tab.0:29', 'vf_ti_match.0:60', 'vf_copy.0:%d' % (FLD + 2), 'x_strlen.0:64',
+           M_DECODE + '.0:3', M_DECODE + '.1:%d' % (ntok + 2), M_DECODE + '.2:%d' % (ntok + 2),
+           '_ZN4FIX811MessageBase27extract_element_fixed_widthEPKcjjPcS3_.0:%d' % FLD, '_ZN4FIX811MessageBase15extract_elementEPKcjPcS3_.0:%d' % (FLD + 1),
+           'TK_render.0:%d' % (ntok + 3), 'TK_render.1:%d' % (ntok + 3), 'st_extract_element.0:%d' % (ntok + 3), 'st_extract_element.1:%d' % (ntok + 3), 'st_extract_element.2:%d' % (ntok + 3),
+           '_ZN4FIX89fast_atoiItEET_PKcc.0:7', '_ZN4FIX89fast_atoiIjEET_PKcc.0:9', '_ZN4FIX89fast_atoiIiEET_PKcc.0:9']
+    us += ['%s.%d:29' % (M_FILL, i) for i in range(4)] + ['%s.%d:6' % (M_DGROUP, i) for i in range(6)]
+    return us + list(extra)
+
+def tok_harness(ctx, name, *, perm=0, nx=3, pres=0, drop=0, ng=0, gpres=0, defs=(), tokcut=True, tier='quick', extra_defs=(), timeout=900, cfile='C04_tok.c', pid='C04'):
+    """one query of the token-level driver (harness/C04_tok.c)"""
+    world(ctx)
+    nslots = bin(pres).count('1') + bin(gpres).count('1')
+    ntok = 3 + 6 + nx + ng + 1
+    d = list(defs) + ['NX=%d' % nx, 'PRES=%d' % pres, 'DROP=%d' % drop, 'PERM=%d' % perm, 'VF_MAXCOPY=%d' % FLD] + list(extra_defs)
+    if ng: d += ['NG=%d' % ng, 'GPRES=%d' % gpres]
+    else: d += ['NOGROUP']
+    if not tokcut: d += ['NO_TOKCUT']
+    slots = []
+    for i in range(nx):
+        if i == 1 and ng: slots.append('384=n ' + ' '.join('G%d' % g if (gpres >> g) & 1 else '-' for g in range(ng)))
+        else: slots.append('X%d' % i if (pres >> i) & 1 else '-')
+    bounds = ('message 8=FIX.4.2|9=12|35=A| %s 49 56 34 52 %s 98 108 %s 10=ddd|%s; %d symbolic 9-byte token(s): tag from a menu of 11 (header/body/trailer tags, foreign tag, '
+              'tag outside the field table, two tags == known tag mod 65536, repeat of 35%s), 2..6 symbolic value bytes (no SOH/NUL); checksum digits, byte sum and no_chksum flag symbolic; '
+              'FIX8_MAX_FLD_LENGTH scaled to %d') % (slots[0], slots[1], ' '.join(slots[2:]), ' with mandatory token #%d left out' % drop if drop else '', nslots,
+                                                   '; group slots: 372, 385, 383, 141, 5000; count 0..%d' % ng if ng else '', FLD)
+    h = Harness(name, VERIF + '/harness/' + cfile, defines=d, unwind=14, unwindset=us_decode(ntok), timeout=timeout, mem_gb=12, flags=['-I', VERIF + '/shims'],
+                functions=FUN_DECODE + ([] if tokcut else ['FIX8::MessageBase::extract_element']), stubs=STUBS_DECODE + ([STUB_TOK] if tokcut else []) + ([] if ng else [STUB_NOGRP]),
+                bounds=bounds, desc='%s mode; oracle = reference acceptor over the token list and the FIX42UTEST trait tables' % ('permissive' if perm else 'strict'), tier=tier)
+    return ctx.add(h)
+
+DECODE_ASSUMPTIONS = ['trait/field/message tables: hand copy of FIX42UTEST header, Logon, Logon::NoMsgTypes, trailer, compared with libutest.so on every run (translator_validation)',
+                      'Message::calc_chksum equals the byte sum (C07) - the decoder harness lets the harness choose that sum',
+                      'the token oracle cut of extract_element is the contract proved by the C03_ext_* harnesses (inputs <= 40 bytes)',
+                      'field objects are not built: the creator hook logs the text it receives (per-type parsing is C01/C08/C09); std::map insertion of fields is not executed',
+                      'operator new never fails']
